@@ -18,7 +18,10 @@ components of `ResolveRefsIn`) and `loadDoc` (`loadFromURIInternal` + `loadFromD
   `(componentDoc, componentPath)`, then the second walk of the value's children with the OUTER
   `(doc, documentPath)`; path items re-assign `(doc, documentPath)` instead, and a drilled path item that
   is itself a `$ref` is resolved (as a copy) before it is assigned (9b25d89).
-* a backtrack callback only assigns a value of its own kind (a04fe6c).
+* the in-progress set and the backtrack callbacks are keyed by kind AND reference text (7245059): the same text met
+  as another kind is resolved on its own.
+* a whole-file path item whose file is itself `{$ref: …}` is resolved (as a copy, against the file's location) before
+  it is assigned (376b90f).
 * reads performed before an error are part of the outcome (the log is kept on every path).
 
 Path items have no `Value`: the code tests `!pathItem.isEmpty()` instead; the model treats a path item
@@ -123,13 +126,14 @@ structure File where
   raw : List (String × Node)       -- fragment → element found by the raw drill of the re-read fallback
   conflict : Bool := false         -- as a single element it has both a `schema` and a `content` member (an error for a parameter)
   emptyPI : Bool := false          -- read as a path item it is empty (`isEmpty()`: no summary, description, operation, server, parameter)
+  selfRef : Option Ref := none     -- the file is `{"$ref": …}`: what a path-item reference to the whole file finds (`p.Ref != ""`)
 
 def refsViews : List (Kind × List Node) → List Ref
   | [] => []
   | (_, ks) :: rest => refsList ks ++ refsViews rest
 
 def File.refs (f : File) : List Ref :=
-  refsList f.tops ++ refsViews f.elems ++ refsList (f.typed.map (·.2)) ++ refsList (f.raw.map (·.2))
+  refsList f.tops ++ refsViews f.elems ++ refsList (f.typed.map (·.2)) ++ refsList (f.raw.map (·.2)) ++ f.selfRef.toList
 
 inductive Entry where
   | file | data | dataWithPath
@@ -142,6 +146,7 @@ structure Input where
   rootFile : File
   rootInStore : Bool               -- reading the root location yields the root file (else a read error)
   store : List (Url × File)
+  known : List Url := []           -- locations of the documents loaded by EARLIER loads on the same `Loader` (read, or given as a located root)
 
 /-- the root's location: none for `LoadFromData` -/
 def Input.root (inp : Input) : Option Url :=
@@ -189,11 +194,12 @@ structure St where
   oof : Bool                         -- out of fuel (never with enough fuel)
   docs : List Url                    -- `visitedDocuments`
   marks : List (Key × Val)           -- components whose `Value` is set
-  inprog : List String               -- `visitedRefs`
-  pend : List (String × Kind × Key)  -- `backtrack`: reference text, kind the callback accepts, component to assign
+  inprog : List (Kind × String)      -- `visitedRefs`, keyed by kind and reference text (7245059)
+  pend : List (String × Kind × Key)  -- `backtrack`: reference text and kind (the key), component to assign
   tr : List Nat                      -- branch trace (coverage evidence only; no definition reads it)
+  gen : Nat := 0                     -- number of reads in the loader's life: names the copy a read produces (never reset)
 
-def St.init : St := ⟨[], false, false, [], [], [], [], []⟩
+def St.init : St := ⟨[], false, false, [], [], [], [], [], 0⟩
 
 /-- record that branch `n` was taken (coverage evidence) -/
 def tick (n : Nat) (st : St) : St := { st with tr := n :: st.tr }
@@ -207,7 +213,7 @@ structure Cx where
   path : Option Url      -- `documentPath`
 
 def logRead (aligned : Bool) (u : Url) (st : St) : St :=
-  { st with log := st.log ++ [u], foreign := st.foreign || !aligned }
+  { st with log := st.log ++ [u], foreign := st.foreign || !aligned, gen := st.gen + 1 }
 
 def setMark (copy : Bool) (k : Key) (v : Val) (st : St) : St :=
   if copy then st else { st with marks := (k, v) :: st.marks }
@@ -215,17 +221,15 @@ def setMark (copy : Bool) (k : Key) (v : Val) (st : St) : St :=
 def addPend (copy : Bool) (text : String) (kind : Kind) (k : Key) (st : St) : St :=
   if copy then st else { st with pend := (text, kind, k) :: st.pend }
 
-/-- `unvisitRef(ref, value)`: the callbacks registered for `text` run with the value; a callback registered by a
-    resolver of another kind ignores it (type assertion `v, ok := value.(*Kind)`) -/
+/-- `unvisitRef(key, value)`: the callbacks registered under the key (kind, text) run with the value -/
 def unvisit (text : String) (kind : Kind) (v : Option Val) (st : St) : St :=
   { st with
-    inprog := st.inprog.erase text
-    pend := st.pend.filter (fun p => !(p.1 == text))
+    inprog := st.inprog.erase (kind, text)
+    pend := st.pend.filter (fun p => !(p.1 == text && decide (p.2.1 = kind)))
     marks := match v with
       | none => st.marks
       | some val => (st.pend.filter (fun p => p.1 == text && decide (p.2.1 = kind))).map (fun p => (p.2.2, val)) ++ st.marks
-    tr := (if (st.pend.any (fun p => p.1 == text && decide (p.2.1 = kind))) && v.isSome then [11] else []) ++
-          (if (st.pend.any (fun p => p.1 == text && !decide (p.2.1 = kind))) then [21] else []) ++ st.tr }
+    tr := (if (st.pend.any (fun p => p.1 == text && decide (p.2.1 = kind))) && v.isSome then [11] else []) ++ st.tr }
 
 /-- the guard `allowsExternalRefs`, then `resolvePathWithRef(ref, documentPath)`;
     also tells whether the location obtained is the resolution of the reference against the location of the
@@ -250,7 +254,7 @@ def drill (inp : Input) (cdoc cpath : Option Url) (frag : String) (kind : Kind) 
         if file.parses then
           match assoc frag file.raw with
           | none => (tick 18 (logRead true p st), none)
-          | some t => (tick 8 (logRead true p st), some ((some p, st.log.length + 1), t))
+          | some t => (tick 8 (logRead true p st), some ((some p, st.gen + 1), t))
         else (tick 13 (logRead true p st), none)
 
 def okRes (ok : Bool) (v : Val) : Res := if ok then .ok (some v) else .err
@@ -268,36 +272,46 @@ def resolve (inp : Input) : Nat → Cx → Home → Bool → Node → St → St 
       match assoc (home, id) st.marks with
       | some v => (tick 1 st, .ok (some v))
       | none =>
-        if r.text ∈ st.inprog then (tick 2 (addPend copy r.text kind (home, id) st), .ok none)
+        if (kind, r.text) ∈ st.inprog then (tick 2 (addPend copy r.text kind (home, id) st), .ok none)
         else
           match r.form with
           | .whole =>
             match guardExt inp cx home r with
-            | none => (tick 3 { st with inprog := r.text :: st.inprog }, .err)
+            | none => (tick 3 { st with inprog := (kind, r.text) :: st.inprog }, .err)
             | some (u, al) =>
               match storeAt inp u with
-              | none => (tick 12 (logRead al u { st with inprog := r.text :: st.inprog }), .err)
+              | none => (tick 12 (logRead al u { st with inprog := (kind, r.text) :: st.inprog }), .err)
               | some file =>
                 if file.parses then
                   -- resolveParameterRef: "cannot contain both schema and content in a parameter"
-                  if kind = .parameter && file.conflict then (tick 22 (logRead al u { st with inprog := r.text :: st.inprog }), .err) else
+                  if kind = .parameter && file.conflict then (tick 22 (logRead al u { st with inprog := (kind, r.text) :: st.inprog }), .err) else
                   -- `*pathItem = p` with an empty p: nothing to walk, the item stays unset, the callbacks copy an empty item
+                  if kind = .pathItem && file.selfRef.isSome then
+                    -- `p.Ref != ""`: `resolvePathItemRef(doc, &p, documentPath)` with the loaded file's location, then `*pathItem = p`
+                    match resolve inp f ⟨cx.doc, some u⟩ (some u, st.gen + 1) true (.mk 0 .pathItem file.selfRef [])
+                        (tick 24 (logRead al u { st with inprog := (kind, r.text) :: st.inprog })) with
+                    | (st1, .err) => (st1, .err)
+                    | (st1, .ok none) => (tick 25 (unvisit r.text kind none st1), .ok none)
+                    | (st1, .ok (some val)) =>
+                      match walk inp f ⟨cx.doc, some u⟩ val.1 val.2 (setMark copy (home, id) val st1) with
+                      | (st2, ok) => (unvisit r.text kind (some val) st2, okRes ok val)
+                  else
                   if kind = .pathItem && file.emptyPI then
-                    (tick 23 (unvisit r.text kind none (logRead al u { st with inprog := r.text :: st.inprog })), .ok none) else
-                  match walk inp f ⟨cx.doc, some u⟩ (some u, st.log.length + 1) (file.elemAs kind)
-                      (setMark copy (home, id) ((some u, st.log.length + 1), file.elemAs kind)
-                        (tick 4 (logRead al u { st with inprog := r.text :: st.inprog }))) with
+                    (tick 23 (unvisit r.text kind none (logRead al u { st with inprog := (kind, r.text) :: st.inprog })), .ok none) else
+                  match walk inp f ⟨cx.doc, some u⟩ (some u, st.gen + 1) (file.elemAs kind)
+                      (setMark copy (home, id) ((some u, st.gen + 1), file.elemAs kind)
+                        (tick 4 (logRead al u { st with inprog := (kind, r.text) :: st.inprog }))) with
                   | (st1, ok) =>
-                    (unvisit r.text kind (some ((some u, st.log.length + 1), file.elemAs kind)) st1,
-                     okRes ok ((some u, st.log.length + 1), file.elemAs kind))
-                else (tick 13 (logRead al u { st with inprog := r.text :: st.inprog }), .err)
+                    (unvisit r.text kind (some ((some u, st.gen + 1), file.elemAs kind)) st1,
+                     okRes ok ((some u, st.gen + 1), file.elemAs kind))
+                else (tick 13 (logRead al u { st with inprog := (kind, r.text) :: st.inprog }), .err)
           | .internal =>
-            fragStep inp f cx home copy id kind r cx.doc cx.path { st with inprog := r.text :: st.inprog }
+            fragStep inp f cx home copy id kind r cx.doc cx.path { st with inprog := (kind, r.text) :: st.inprog }
           | .fragment =>
             match guardExt inp cx home r with
-            | none => (tick 3 { st with inprog := r.text :: st.inprog }, .err)
+            | none => (tick 3 { st with inprog := (kind, r.text) :: st.inprog }, .err)
             | some (u, al) =>
-              match loadDoc inp f al u { st with inprog := r.text :: st.inprog } with
+              match loadDoc inp f al u { st with inprog := (kind, r.text) :: st.inprog } with
               | (st1, false) => (st1, .err)
               | (st1, true) => fragStep inp f cx home copy id kind r (some u) (some u) (tick 5 st1)
 /-- `resolveComponent` after `resolveRefAndDocument`, and what the resolver does with its result -/
@@ -350,29 +364,67 @@ def loadDoc (inp : Input) : Nat → Bool → Url → St → St × Bool
       else (tick 13 { (logRead al u st) with docs := u :: st.docs }, false)
 end
 
-/-- `LoadFromFile` / `LoadFromURI`, `LoadFromDataWithPath`, `LoadFromData` -/
-def load (inp : Input) (fuel : Nat) : St × Bool :=
+/-- `LoadFromFile` / `LoadFromURI`, `LoadFromDataWithPath`, `LoadFromData` on a loader in state `st0` (what an earlier
+    load left behind: `visitedDocuments`, the resolved components of those documents; see `carry`) -/
+def loadFrom (inp : Input) (fuel : Nat) (st0 : St) : St × Bool :=
   match inp.entry with
   | .file =>
     match inp.rootLoc with
-    | none => (St.init, false)
-    | some u => loadDoc inp fuel true u St.init
+    | none => (st0, false)
+    | some u => loadDoc inp fuel true u st0
   | .dataWithPath =>
     match inp.rootLoc with
-    | none => (St.init, false)
+    | none => (st0, false)
     | some u =>
-      if inp.rootFile.parses then
-        walk inp fuel ⟨some u, some u⟩ (some u, 0) inp.rootFile.tops { St.init with docs := [u] }
-      else ({ St.init with docs := [u] }, false)
+      -- `loadFromDataWithPathInternal`: a location seen before yields the earlier document, nothing is resolved
+      if u ∈ st0.docs then (tick 6 st0, true)
+      else if inp.rootFile.parses then
+        walk inp fuel ⟨some u, some u⟩ (some u, 0) inp.rootFile.tops { st0 with docs := u :: st0.docs }
+      else ({ st0 with docs := u :: st0.docs }, false)
   | .data =>
-    if inp.rootFile.parses then walk inp fuel ⟨none, none⟩ (none, 0) inp.rootFile.tops St.init
-    else (St.init, false)
+    if inp.rootFile.parses then walk inp fuel ⟨none, none⟩ (none, 0) inp.rootFile.tops st0
+    else (st0, false)
+
+/-- one load on a fresh `Loader` -/
+def load (inp : Input) (fuel : Nat) : St × Bool := loadFrom inp fuel St.init
+
+/-! ### histories: several loads on ONE `Loader`
+
+What survives a load: `visitedDocuments` (never reset), the documents themselves with the components already
+resolved in them (the marks), and `rootLocation` / `rootDir`, which the loader assigns but never reads (table
+LoaderState).  `resetVisitedPathItemRefs` clears the in-progress set and the callbacks at every entry point.  The
+components of a document loaded WITHOUT a location cannot be reached again (marks keyed or valued there are dropped). -/
+
+def carry (st : St) : St :=
+  { St.init with
+    docs := st.docs
+    gen := st.gen
+    marks := st.marks.filter (fun kv => kv.1.1.1.isSome && kv.2.1.1.isSome) }
+
+/-- the locations of the documents a load leaves loaded in the loader: everything it read, and its root -/
+def loadedBy (inp : Input) (st : St) : List Url := st.log ++ inp.root.toList
+
+structure StepOut where
+  inp : Input            -- the load, with `known` = what the earlier loads loaded
+  st : St
+  ok : Bool
+
+def runH : List Input → Nat → List Url → St → List StepOut
+  | [], _, _, _ => []
+  | inp :: rest, fuel, hist, st0 =>
+    ⟨{ inp with known := hist }, (loadFrom { inp with known := hist } fuel st0).1, (loadFrom { inp with known := hist } fuel st0).2⟩ ::
+      runH rest fuel (hist ++ loadedBy inp (loadFrom { inp with known := hist } fuel st0).1)
+        (carry (loadFrom { inp with known := hist } fuel st0).1)
+
+/-- the loads of a history, each with the state it ends in -/
+def history (steps : List Input) (fuel : Nat) : List StepOut := runH steps fuel [] St.init
 
 /-! ### spec (written from the property text) -/
 
-/-- the document at `d` has been loaded before: it is the root, or `d` was read earlier -/
+/-- the document at `d` has been loaded before: it is the root of this load, or `d` was read earlier in this load,
+    or the loader loaded it in an earlier load -/
 def Loaded (inp : Input) (pre : List Url) (d : Option Url) : Prop :=
-  d = inp.root ∨ ∃ u ∈ pre, d = some u
+  d = inp.root ∨ (∃ u ∈ pre, d = some u) ∨ (∃ u ∈ inp.known, d = some u)
 
 /-- `u` is the root, or the resolution of a reference found in an already-loaded document against that
     document's own location -/
@@ -392,7 +444,7 @@ def Spec (inp : Input) (log : List Url) : Prop :=
 
 def justifiedB (inp : Input) (pre : List Url) (u : Url) : Bool :=
   decide (some u = inp.root) ||
-  (inp.root :: pre.map some).any (fun d =>
+  (inp.root :: (pre.map some ++ inp.known.map some)).any (fun d =>
     (refsAt inp d).any (fun r => decide (r.form ≠ Form.internal) && decide (u = resolvePath d r.url)))
 
 def allJustFrom (inp : Input) : List Url → List Url → Bool
@@ -403,6 +455,7 @@ def allJustB (inp : Input) (log : List Url) : Bool := allJustFrom inp [] log
 def onlyRootB (inp : Input) (log : List Url) : Bool := log.all (fun u => decide (some u = inp.root))
 def specB (inp : Input) (log : List Url) : Bool :=
   if inp.allowed then allJustB inp log else onlyRootB inp log
+
 
 /-- the pairs (document location, read location) the spec admits: edges of "may be read once d is loaded" -/
 def specEdges (inp : Input) (cands : List (Option Url)) : List (Option Url × Url) :=
@@ -485,6 +538,7 @@ def expectedWalk : List (String × String × String × String) := [
   ("resolveCallbackRef", "resolveCallbackRef", "&resolved", ""),
   ("resolveCallbackRef", "resolvePathItemRef", "pathItems[name]", "sorted(pathItems)"),
   ("resolveLinkRef", "resolveLinkRef", "&resolved", ""),
+  ("resolvePathItemRef", "resolvePathItemRef", "&p", ""),
   ("resolvePathItemRef", "resolvePathItemRef", "&resolved", ""),
   ("resolvePathItemRef", "resolveParameterRef", "each(pathItem.Parameters)", "pathItem.Parameters"),
   ("resolvePathItemRef", "resolveParameterRef", "each(operation.Parameters)", "sorted(operations);operation.Parameters"),
